@@ -212,7 +212,20 @@ impl Outcome {
                 self.samples.push(json!({"kind": c.kind, "op": c.op, "desc": c.desc, "request": c.request, "answer": answers[i]}));
             }
         }
-        let trunc = |v: &Vec<Value>| -> Vec<Value> { v.iter().take(50).cloned().collect() };
+        // keep at most 3 examples per signature so that one noisy defect cannot hide another
+        let trunc = |v: &Vec<Value>| -> Vec<Value> {
+            let mut per: BTreeMap<String, usize> = BTreeMap::new();
+            let mut res = vec![];
+            for x in v {
+                let sig = x.get("sig").and_then(|s| s.as_str()).or_else(|| x.get("op").and_then(|s| s.as_str())).unwrap_or("?").to_string();
+                let c = per.entry(sig).or_insert(0);
+                *c += 1;
+                if *c <= 3 && res.len() < 60 {
+                    res.push(x.clone());
+                }
+            }
+            res
+        };
         let result = json!({
             "property": self.property,
             "tier": self.tier,
